@@ -73,7 +73,7 @@ def c01(tier, seed, wd, replay):
     else:
         configs.append(ST.cfg("links-2x2-e3-N", UseN=True, MaxEnds=3, Kinds={"D", "U"}))
         configs.append(ST.cfg("links-3x2-e2", NV=3, InitBV=3, MaxEnds=2, Kinds={"D", "U"}))
-        configs.append(ST.cfg("links-2x3-e2", NL=3, MaxEnds=2, Kinds={"D", "T"}))
+        configs.append(ST.cfg("links-2x3-e2", NL=3, MaxEnds=2, Kinds={"D"}))
     nontrivial = set()
     for name, consts in configs:
         nt, _ = ST.run_config(run, "C01", name, consts, wd, caching=False)
@@ -163,7 +163,7 @@ def c03(tier, seed, wd, replay):
     thorough = [ST.cfg("links-2x2-e2"),
                 ST.cfg("links-2x2-e3-N", UseN=True, MaxEnds=3, Kinds={"D", "U"}),
                 ST.cfg("links-3x2-e2", NV=3, InitBV=3, Kinds={"D", "U"}),
-                ST.cfg("links-2x3-e2", NL=3, Kinds={"D", "T"}),
+                ST.cfg("links-2x3-e2", NL=3, Kinds={"D"}),
                 ST.cfg("unis-2v2u", **UNI), mixed,
                 ST.cfg("mixed-2v1u2l-unends", NV=1, NU=1, NL=2, NLaw=1, Kinds={"D", "U"},
                        Fams={"link", "expl", "uni"}, InitBV=1, InitBU=1, UniEnds=True, MaxArg=1)]
